@@ -65,6 +65,18 @@ pub fn raw_graph(min_n: u8, max_n: u8, max_m: usize, directed: Option<bool>) -> 
 }
 
 impl RawGraph {
+    /// Bring a decoded description into the domain of `raw_graph(min_n, max_n, max_m, directed)`
+    /// (fuzz entry / from-bytes generators).
+    pub fn sanitize(&mut self, min_n: u8, max_n: u8, max_m: usize, directed: Option<bool>) {
+        self.n = min_n + self.n % (max_n - min_n + 1);
+        self.keys.resize(self.n as usize, 0);
+        self.edges.truncate(max_m);
+        self.shape %= SHAPES;
+        if let Some(d) = directed {
+            self.directed = d;
+        }
+    }
+
     pub fn weight(&self, w: u8, o: &GOpts) -> i32 {
         o.wmin + (((w as i32) * (o.wmax - o.wmin + 1)) >> 8)
     }
